@@ -158,3 +158,29 @@ func c15HandleStep(v *verifFS, h afero.File, snap c15Snapshot, tag string) {
 		vm.Assert("C15.handle_writer_returns_permission_or_isdir", err == os.ErrPermission || err == config.ErrIsDirectory)
 	}
 }
+
+// Harness_C15_initialize_readonly: Initialize on a read-only instance (with and without a write backend) over a tape
+// that has no root to offer — no drive file, an empty one, an index that is empty — never writes: it answers with a
+// permission error. Over a tape with a root it only fills the index.
+func Harness_C15_initialize_readonly() {
+	v := verifNewFS(config.PipeConfig{}, true, vm.Bool("withWriteBackend"))
+	t := v.Env.Tape
+	state := vm.Choice("tape", 3)
+	switch state {
+	case 0:
+		t.Exists = false
+	case 1: // exists, empty
+	case 2: // holds a root and an entry, index lost
+		v.Env.AddTapeEntry("/", tar.TypeDir, 0)
+		v.Env.AddTapeEntry("/d", tar.TypeDir, 0)
+	}
+	appends, opens, lenBefore := t.Appends, t.WriteOpens, t.Len
+	_, err := v.FS.Initialize("/", os.ModePerm)
+	vm.Assert("C15.initialize_never_writes_the_tape", t.Appends == appends && t.WriteOpens == opens && t.Len == lenBefore && t.Truncates == 0)
+	if state != 2 {
+		vm.Assert("C15.initialize_without_a_root_is_a_permission_error", err == os.ErrPermission)
+	} else {
+		vm.Assert("C15.initialize_over_a_tape_with_a_root_ok", err == nil)
+	}
+	vm.Assert("C15.initialize_locks_free", v.Env.LocksFree())
+}
